@@ -209,6 +209,8 @@ def real_cases(max_side=40, max_elems=3000, boost=None):
             "allow_irregular": allow_irregular,
             "min_mem": min_mem,
             "tgt_form": draw(st.sampled_from(["tuple", "dict", "int-if-equal", "none-some"])),
+            # the planner budget must come out of what is left after reserved_mem
+            "reserved": draw(st.sampled_from([0, 0, 1000, 50_000, 2_000_000])),
         }
 
     return cases()
@@ -352,11 +354,12 @@ def _mk_spec(case):
     )
     bc = get_buffer_copies(probe)
     total_copies = 1 + bc.read + 1 + 1 + bc.write
-    allowed = total_copies * base * case["factor"] + case["slack"]
-    kw = dict(intermediate_store=MemoryStore(), allowed_mem=allowed, reserved_mem=0)
+    data_budget = total_copies * base * case["factor"] + case["slack"]
+    reserved = int(case.get("reserved", 0))
+    kw = dict(intermediate_store=MemoryStore(), allowed_mem=data_budget + reserved, reserved_mem=reserved)
     if comp is None:
         kw["zarr_compressor"] = None
-    return cubed.Spec(**kw), allowed // total_copies
+    return cubed.Spec(**kw), data_budget // total_copies
 
 
 def check_real(case, execute=True) -> Outcome:
